@@ -50,11 +50,11 @@ def gen(ctx: common.Ctx, n_hist: int, steps: tuple[int, int], all_configs: bool,
     cfgs = list(CONFIGS)
     tag = ("C02x", ctx.seed) if explore else ("C02", "core" if ctx.tier == "quick" else "tcore")
     for k in range(n_hist):
-        r = common.rng_for(*tag, "h", k)
+        r = (common.rng_for if explore else common.rng_fixed)(*tag, "h", k)
         n = r.randint(*steps)
         # exploration avoids packages: deleting a submodule that its own package imports is a listed defect class of the
         # unchanged tree (core histories cover it, per history+step)
-        h = histgen.history((*tag, k), n_steps=n, n_modules=r.randint(3, 8), packages=not explore,
+        h = histgen.history((*tag, k), fixed=not explore, n_steps=n, n_modules=r.randint(3, 8), packages=not explore,
                             ops=EXPLORE_OPS if explore else None)
         flags: list[str] = []
         if r.random() < 0.3:
